@@ -717,6 +717,9 @@ class _SetOperation(Selectable, Term):
             querystring = "({query})".format(query=querystring, **kwargs)
 
         if with_alias:
+            if "query_alias_quote_char" in kwargs:
+                # a set operation used as a source is aliased like any other sub-query
+                kwargs["alias_quote_char"] = kwargs["query_alias_quote_char"]
             return format_alias_sql(querystring, self.alias or self._table_name, **kwargs)
 
         return querystring
@@ -1352,6 +1355,11 @@ class QueryBuilder(Selectable, Term):
         kwargs.setdefault("quote_char", self.QUOTE_CHAR)
         kwargs.setdefault("secondary_quote_char", self.SECONDARY_QUOTE_CHAR)
         kwargs.setdefault("alias_quote_char", self.ALIAS_QUOTE_CHAR)
+        # the quote of SUB-QUERY aliases is a convention of the outermost query class as well (Snowflake leaves them bare)
+        kwargs.setdefault(
+            "query_alias_quote_char",
+            self.ALIAS_QUOTE_CHAR if self.QUERY_ALIAS_QUOTE_CHAR is None else self.QUERY_ALIAS_QUOTE_CHAR,
+        )
         kwargs.setdefault("as_keyword", self.as_keyword)
         kwargs.setdefault("dialect", self.dialect)
 
@@ -1481,8 +1489,9 @@ class QueryBuilder(Selectable, Term):
             querystring = "({query})".format(query=querystring)
 
         if with_alias:
-            kwargs['alias_quote_char'] = (
-                self.ALIAS_QUOTE_CHAR if self.QUERY_ALIAS_QUOTE_CHAR is None else self.QUERY_ALIAS_QUOTE_CHAR
+            kwargs['alias_quote_char'] = kwargs.get(
+                'query_alias_quote_char',
+                self.ALIAS_QUOTE_CHAR if self.QUERY_ALIAS_QUOTE_CHAR is None else self.QUERY_ALIAS_QUOTE_CHAR,
             )
             return format_alias_sql(querystring, self.alias, **kwargs)
 
